@@ -194,6 +194,24 @@ func checkRequestTable(p *Prog, r *Report) {
 		return
 	}
 	idxP, fP := fn.Params[1], fn.Params[2]
+	g := p.ModGraph()
+	unit := g.unitFuncs(fn)
+	inUnit := func(f *ssa.Function) bool {
+		for _, u := range unit {
+			if u == f {
+				return true
+			}
+		}
+		return false
+	}
+	var pe *PathEnum
+	canon := func(v ssa.Value) ssa.Value {
+		if pe == nil {
+			return v
+		}
+		return pe.C(unwrapLocal(v))
+	}
+	isF := func(v ssa.Value) bool { v = canon(v); return v == ssa.Value(fP) || derivesFrom(v, fP) }
 	isModeVal := func(v ssa.Value) bool {
 		b, ok := v.(*ssa.BinOp)
 		if !ok || b.Op != token.AND {
@@ -201,23 +219,25 @@ func checkRequestTable(p *Prog, r *Report) {
 		}
 		k, isK := constInt(b.Y)
 		base, fld := loadedField(b.X)
-		return isK && k == 0o170000 && fld == modeF && derivesFrom(base, fP)
+		return isK && k == 0o170000 && fld == modeF && isF(base)
 	}
 	typeNames := map[int64]string{0o040000: "DIR", 0o120000: "LNK", 0o020000: "CHR", 0o060000: "BLK", 0o140000: "SOCK", 0o010000: "FIFO", 0o100000: "REGMODE"}
 	var lstat *ssa.Call
-	allCalls(fn, func(c ssa.CallInstruction) {
-		if call, ok := c.(*ssa.Call); ok && calleeName(c) == "(*os.Root).Lstat" && lstat == nil {
-			if base, fld := loadedField(call.Common().Args[1]); fld == nameF && derivesFrom(base, fP) {
-				lstat = call
+	for _, u := range unit {
+		allCalls(u, func(c ssa.CallInstruction) {
+			if call, ok := c.(*ssa.Call); ok && calleeName(c) == "(*os.Root).Lstat" && lstat == nil {
+				if _, fld := loadedField(call.Common().Args[1]); fld == nameF {
+					lstat = call
+				}
 			}
-		}
-	})
+		})
+	}
 	if lstat == nil {
 		r.Fatalf("%s: no DestRoot.Lstat(f.Name) in recvGenerator", rule)
 		return
 	}
 	isLstat := func(v ssa.Value, idx int) bool {
-		c, i := extractOf(v)
+		c, i := extractOf(canon(v))
 		return c == lstat && i == idx
 	}
 	isSkip := func(v ssa.Value, idx int) bool {
@@ -239,7 +259,7 @@ func checkRequestTable(p *Prog, r *Report) {
 					if c.Common().IsInvoke() && c.Common().Method.Name() == "Mode" && isLstat(c.Common().Value, 0) {
 						return "R", false, true
 					}
-					if sc := c.Common().StaticCallee(); sc != nil && sc.Name() == "FileMode" && pkgPathOfFunc(sc) == pkgReceiver && derivesFrom(c.Common().Args[0], fP) {
+					if sc := c.Common().StaticCallee(); sc != nil && sc.Name() == "FileMode" && pkgPathOfFunc(sc) == pkgReceiver && isF(c.Common().Args[0]) {
 						return "REG", false, true
 					}
 				}
@@ -279,7 +299,8 @@ func checkRequestTable(p *Prog, r *Report) {
 		if ok {
 			v = cv.X
 		}
-		if derivesFrom(v, idxP) {
+		v = canon(v)
+		if v == ssa.Value(idxP) || derivesFrom(v, idxP) {
 			return true
 		}
 		if ld, ok := v.(*ssa.UnOp); ok && ld.Op == token.MUL {
@@ -316,14 +337,26 @@ func checkRequestTable(p *Prog, r *Report) {
 		if calleeName(c) == "(*"+pkgWire+".Conn).WriteInt32" && isIdx(c.Common().Args[1]) {
 			return "request"
 		}
+		if sc := c.Common().StaticCallee(); sc != nil && sc.Parent() == nil && pkgPathOfFunc(sc) == pkgReceiver && sc.Blocks != nil && sc.Name() != "recvGenerator" {
+			if _, isCall := in.(*ssa.Call); isCall && writesIdxFirstMethod(sc) {
+				return "request"
+			}
+		}
 		if mc, ok := c.Common().Value.(*ssa.MakeClosure); ok {
-			if lit, ok := mc.Fn.(*ssa.Function); ok && lit.Parent() == fn && writesIdxFirst(lit) {
+			if lit, ok := mc.Fn.(*ssa.Function); ok && inUnit(lit.Parent()) && writesIdxFirst(lit) {
 				return "request"
 			}
 		}
 		return ""
 	}
-	pe := &PathEnum{Atom: atom, Event: event, IgnoreUnknown: true, BackEdge: "loop", MaxPaths: 20000,
+	pe = &PathEnum{Atom: atom, Event: event, IgnoreUnknown: true, BackEdge: "loop", MaxPaths: 20000,
+		Inline: func(f *ssa.Function) bool {
+			switch f.Name() {
+			case "setPerms", "createDevice", "symlink", "skipFile", "listOnly", "generateAndSendSums", "FileMode", "setUid", "openLocalFile":
+				return false
+			}
+			return !writesIdxFirst(f) // a method that requests the file is an event, not walked
+		},
 		Outcome: func(last ssa.Instruction, events []string) string {
 			for _, e := range events {
 				if e == "request" {
@@ -331,7 +364,7 @@ func checkRequestTable(p *Prog, r *Report) {
 				}
 			}
 			ret, ok := last.(*ssa.Return)
-			if ok && len(ret.Results) == 1 && isNilConst(retResults(ret)[0]) {
+			if ok && len(ret.Results) == 1 && isNilConst(pe.V(retResults(ret)[0])) {
 				return "nothing"
 			}
 			return "error"
@@ -362,4 +395,32 @@ func checkRequestTable(p *Prog, r *Report) {
 		return "request"
 	}
 	CheckTable(p, r, rule, "recvGenerator", pe, spec, func(got, want string) bool { return got == "error" })
+}
+
+// writesIdxFirstMethod: a method (not a literal) whose every return is
+// dominated by a Conn.WriteInt32 of one of its own int parameters — the shape
+// of requestFullFile after it was turned into a method.
+func writesIdxFirstMethod(fn *ssa.Function) bool {
+	var w ssa.Instruction
+	allCalls(fn, func(c ssa.CallInstruction) {
+		if w != nil || calleeName(c) != "(*"+pkgWire+".Conn).WriteInt32" {
+			return
+		}
+		a := c.Common().Args[1]
+		if cv, ok := a.(*ssa.Convert); ok {
+			a = cv.X
+		}
+		if _, isParam := unwrapLocal(a).(*ssa.Parameter); isParam {
+			w = c
+		}
+	})
+	if w == nil {
+		return false
+	}
+	for _, b := range fn.Blocks {
+		if ret, ok := lastInstr(b).(*ssa.Return); ok && !InstrDominates(w, ret) {
+			return false
+		}
+	}
+	return true
 }
